@@ -25,7 +25,9 @@ def grid():
                  (1, 3), (-2, 3), (65537, 65536), (1, 65536), (2147483647, 2), (1, 2147483647),
                  # neighbours whose cross products differ by 1 near 2^62, and the most negative numerator
                  (2147483647, 2147483646), (2147483646, 2147483645), (-2147483647, 2147483646), (2147483645, 2147483646), (-2147483648, 2147483647),
-                 (-2147483648, 3)]:
+                 (-2147483648, 3),
+                 # components beyond 2^24: f32(n)/f32(d) and the correctly rounded quotient may differ
+                 (16777217, 5), (33554433, 7), (-16777219, 3)]:
         g.append(("%d/%d" % (a, b), Fraction(a, b), {"ratio_literal": True}))
     computed = [("(/ 1 -2)", Fraction(-1, 2)), ("(+ 1/2 1/2)", Fraction(1)), ("(- 1/2)", Fraction(-1, 2)), ("(/ 6 4)", Fraction(3, 2)),
                 ("(/ -6 -4)", Fraction(3, 2)), ("(* 2/3 3/2)", Fraction(1)), ("(/ 7 -7)", Fraction(-1)), ("(- 1/3 1/3)", Fraction(0)),
